@@ -63,7 +63,10 @@ func (o fpObs) coq() string {
 
 func execFootprint(input string) Result {
 	a := fpRun(input, 1)
-	b := fpRun(input, 4)
+	var b fpObs
+	if a.ok { // a crawl of N seeds that does not reach quiescence already fails monitor 0: do not sit out the 4N run as well
+		b = fpRun(input, 4)
+	}
 	kv := parseKV(input)
 	w, _ := strconv.Atoi(kv["w"])
 	mca, _ := strconv.Atoi(kv["mca"])
@@ -84,6 +87,9 @@ func genFootprint(r *Rng, i int, tier string) string {
 	}
 	if r.Chance(25) {
 		s += " ondisk=1"
+	}
+	if r.Chance(25) {
+		s += " inc=A" // --include-host: every third seed (and every asset elsewhere) is out of scope and must leave no trace either
 	}
 	return strings.TrimSpace(s)
 }
